@@ -56,5 +56,13 @@ CHECKS += [
          text="score() is compared with the frame-normalised linear score of the client mean with the UBM shifted by U x (x = posterior mean from the pooled probe, computed independently); list == pooled probe, re-scoring the same objects, score_using_array / enroll_using_array / fit_using_array (numpy and dask) against the statistics-level calls, estimate_ux == U estimate_x and ISVMachine.transform are asserted for every case.",
          note=TRUST),
 ]
+CHECKS += [
+    dict(id="C09", technique="bounded exhaustive enumeration (UBMs x labelled statistics incl. unsorted labels x ranks x initial subspaces x E/M pairs) on the real code, driven through the public per-phase steps, vs phase marginal likelihoods from the definition",
+         text="Each JFA phase is stepped through the public e_step_*/m_step_*/finalize_* methods; after every pair the phase's marginal log-likelihood (latent integrated out, other subspaces and handed-over point estimates fixed) computed from the model definition must not decrease; per-class accumulated statistics, shapes and finiteness are asserted; fit(em_iterations=k) from a list, a bag and a bag on a serialising executor must equal the manual sequence.",
+         note=TRUST),
+    dict(id="C10", technique="bounded exhaustive enumeration (UBMs x (T, sigma) x statistics x dim_t x setter histories; training sets x seeds x update_sigma x floors x list/bag x iterations) on the real code vs the posterior-mean system and the EM-step definition",
+         text="Every projection is compared with the solution of the posterior-mean system (zero vector for frame-less statistics), also after sigma is replaced and T rescaled in place on the same machine; every training iteration is compared with the EM step definition applied to the previous model, the marginal log-likelihood including the covariance terms must not decrease while no floor is active, covariances stay >= floor.",
+         note=TRUST),
+]
 _PENDING = "check not built yet in this round (planned, see DESIGN.md section 10); not claimed until it runs clean"
 NOT_APPLICABLE = [dict(property_id="C%02d" % i, reason=_PENDING) for i in range(1, 21) if "C%02d" % i not in {c["id"] for c in CHECKS}]
